@@ -123,32 +123,32 @@ func Expr(e Node) string {
 			// a left-nested chain a b c is written without parentheses around the chain itself
 			// (the compiler flattens exactly that tree shape into one multi-operand instruction)
 			l := e["l"].(Node)
-			ls := "(" + Expr(l) + ")"
+			ls := operand(l)
 			if kind(l) == "bin" && l["op"].(string) == "cat" {
 				ls = Bare(l)
 			}
-			return "(" + ls + " (" + Expr(e["r"].(Node)) + "))"
+			return "(" + ls + " " + operand(e["r"].(Node)) + ")"
 		}
-		return "((" + Expr(e["l"].(Node)) + ") " + binOps[e["op"].(string)] + " (" + Expr(e["r"].(Node)) + "))"
+		return "(" + operand(e["l"].(Node)) + " " + binOps[e["op"].(string)] + " " + operand(e["r"].(Node)) + ")"
 	case "match":
 		op := "~"
 		if b, _ := e["neg"].(bool); b {
 			op = "!~"
 		}
-		return "((" + Expr(e["e"].(Node)) + ") " + op + " /" + RegexSrc(e["re"].(Node)) + "/)"
+		return "(" + operand(e["e"].(Node)) + " " + op + " /" + RegexSrc(e["re"].(Node)) + "/)"
 	case "cond":
 		// the condition is left bare when it is a comparison (binds tighter than ?:), so that the
 		// tree has the comparison directly under the conditional
 		c := e["c"].(Node)
-		cs := "(" + Expr(c) + ")"
+		cs := operand(c)
 		if kind(c) == "bin" && isCmp(c["op"].(string)) {
 			cs = Bare(c)
 		}
-		return "(" + cs + " ? (" + Expr(e["t"].(Node)) + ") : (" + Expr(e["f"].(Node)) + "))"
+		return "(" + cs + " ? " + operand(e["t"].(Node)) + " : " + operand(e["f"].(Node)) + ")"
 	case "assign":
-		return "(" + Expr(e["lv"].(Node)) + " = (" + Expr(e["e"].(Node)) + "))"
+		return "(" + Expr(e["lv"].(Node)) + " = " + operand(e["e"].(Node)) + ")"
 	case "aug":
-		return "(" + Expr(e["lv"].(Node)) + " " + e["op"].(string) + "= (" + Expr(e["e"].(Node)) + "))"
+		return "(" + Expr(e["lv"].(Node)) + " " + e["op"].(string) + "= " + operand(e["e"].(Node)) + ")"
 	case "incr":
 		if b, _ := e["pre"].(bool); b {
 			return "(" + e["op"].(string) + Expr(e["lv"].(Node)) + ")"
@@ -187,6 +187,27 @@ func Expr(e Node) string {
 		return f + "(" + exprList(args) + ")"
 	}
 	panic("awkast: unknown expression node " + kind(e))
+}
+
+// operand renders an operand of an operator: atomic expressions (non-negative numbers, strings,
+// variables, $N / $name, array elements, calls) are written bare, so that the syntax tree has the
+// literal or the variable itself under the operator (the compiler special-cases such shapes);
+// everything else is parenthesised.
+func operand(e Node) string {
+	switch kind(e) {
+	case "num":
+		if intOf(e["n"]) >= 0 {
+			return Expr(e)
+		}
+	case "str", "var", "idx", "call", "bi", "group", "re0":
+		return Expr(e)
+	case "field":
+		ix := e["e"].(Node)
+		if (kind(ix) == "num" && intOf(ix["n"]) >= 0) || kind(ix) == "var" {
+			return Expr(e)
+		}
+	}
+	return "(" + Expr(e) + ")"
 }
 
 func isCmp(op string) bool {
